@@ -146,11 +146,17 @@ func RootRunCmdFunc(cmd *cobra.Command, args []string) error {
 	}
 
 	ctx, _ := signal.NotifyContext(context.Background(), syscall.SIGINT, syscall.SIGTERM)
-	reload, _ := signal.NotifyContext(context.Background(), ReloadSignals...)
+	reload, stopReload := signal.NotifyContext(context.Background(), ReloadSignals...)
+	defer func() { stopReload() }()
 
 	for {
 		select {
 		case <-reload.Done():
+			// A NotifyContext stays done after its first signal: arm a new one,
+			// otherwise this loop reloads forever.
+			stopReload()
+			reload, stopReload = signal.NotifyContext(context.Background(), ReloadSignals...)
+
 			log.Info("reloading; received reload signal")
 			peerStore, err := r.Stop(true)
 			if err != nil {
